@@ -65,6 +65,11 @@ def _case(draw):
         later = names[i + 1:]
         saved[nm] = {"where": draw(_where_with_refs(later)),
                      "form": draw(st.sampled_from(["W", "W-G", "S-W-O-G", "W-O"]))}
+    broken = None
+    if draw(st.integers(0, 3)) == 0:
+        # one saved query references a name that does not exist: every query that reaches it must fail
+        broken = draw(st.sampled_from(names))
+        saved[broken]["where"]["ands"][0]["atoms"].append({"t": "ref", "name": "missing_q"})
     queries = []
     for _ in range(6):
         k = draw(st.integers(0, 9))
@@ -73,7 +78,16 @@ def _case(draw):
         else:
             q = draw(_where_with_refs(names, force_ref=draw(st.sampled_from(names))))
             queries.append({"where": q, "absent": False})
+    for qd in queries:
+        qd["absent"] = qd["absent"] or _reaches_missing(qd["where"], saved)
     return {"dir": draw(G.directory()), "today": draw(st.sampled_from(G.TODAYS)), "saved": saved, "queries": queries}
+
+
+def _reaches_missing(o, saved, depth=0) -> bool:
+    for n in refs_of(o):
+        if n not in saved or (depth < 10 and _reaches_missing(saved[n]["where"], saved, depth + 1)):
+            return True
+    return False
 
 
 def render_or(o, paren_refs=None) -> str:
@@ -202,6 +216,7 @@ def check(case, rec: Rec) -> None:
             (zdir / "zoq" / f"{nm}.zoq").write_text(zoq_line(nm, s) + "\n# saved query\n\n- old results\n")
         paren_text = {}
         for nm in reversed(list(saved)):
+            paren_text.setdefault("missing_q", "#never")
             paren_text[nm] = render_or(saved[nm]["where"], paren_text)
         ctx = {"today": today, "rows": rows}
         for qd in case["queries"]:
@@ -227,6 +242,8 @@ def check(case, rec: Rec) -> None:
                 if r.code == 0:
                     raise Violation("absent-name-ignored", f"`zorg query {text!r}` exited 0: {r.out[:200]!r}", case=one)
                 rec.label("absent-name")
+                if "missing_q" not in set(refs_of(qd["where"])):
+                    rec.label("absent-name-nested")
                 continue
             if "splice-pools-kinds-or-priorities" in rec.open_keys and pooling_conflict(qd["where"], saved):
                 rec.info["queries_excluded_by_known_finding"] = rec.info.get("queries_excluded_by_known_finding", 0) + 1
